@@ -265,7 +265,7 @@ bool check_bitwriter(vf::Run& r, const Bits& bits, std::string* packed_out) {
 
 }  // namespace
 
-VF_SECTION(blocks, 16, 16, 60) {
+VF_SECTION(blocks, 16, 16, 180) {
   size_t maxlen = 7;
   r.note("get_cstr/get_line/read/readx/get_u8 call trees");
   vf::all_strings(std::string("a\0\n\r", 4), maxlen, [&](const std::string& s) {
@@ -284,7 +284,7 @@ VF_SECTION(blocks, 16, 16, 60) {
   r.bound = "reader content = every string over {a, NUL, LF, CR} of length <= 7 (21845); every sequence of <= 3 calls from {get_cstr, get_line (advance true/false), read(1|2|9), readx(1|2), get_u8} (1110 call nodes per string)";
 }
 
-VF_SECTION(bits, 16, 16, 60) {
+VF_SECTION(bits, 16, 16, 180) {
   size_t maxlen = r.thorough() ? 20 : 16;
   r.note("BitWriter/BitReader");
   for (size_t L = 0; L <= maxlen; L++) {
